@@ -13,6 +13,7 @@ from . import rules_layout as LA
 from . import rules_flat as FL
 from . import witness as WI
 from . import rules_misc as MI
+from . import rules_rawbounds as RB
 
 TRUSTED_BASE = [
     "rustc nightly (type checker, MIR construction at mir-opt-level=0, compile_fail diagnostics)",
@@ -73,6 +74,8 @@ def _run(name, f):
     elif name in ("copyshape", "flipshape", "conv", "intoiter", "sortkey", "fillshape", "drainlit"):
         r = [{"copyshape": MI.r_copyshape, "flipshape": MI.r_flipshape, "conv": MI.r_conv, "intoiter": MI.r_intoiter,
               "sortkey": MI.r_sortkey, "fillshape": MI.r_fill, "drainlit": MI.r_drainlit}[name](f)[0]]
+    elif name == "rawbounds":
+        r = [RB.r_rawbounds(f)[0]]
     elif name == "witness":
         # compile-fail witnesses are configuration independent: run them once, with the default feature set
         r = [WI.r_witness(f.root)[0]] if getattr(f, "config", "default") == "default" else []
@@ -159,14 +162,14 @@ prop("C03", [sel("layout", fn=r"(::view|::view_mut|from_toodee|TooDeeView(Mut)?:
 prop("C04", [sel("encaps", fn=r"^(TooDeeViewMut|RowsMut|ColMut|<impls>)"), sel("witness", fn=r"^(W5|W8|W10|<witness>)", keep_rule_floor=False), sel("units", fn=r"TooDeeViewMut"), sel("dup"), sel("take", fn=r"^(RowsMut|ColMut)"), sel("cursor", fn=r"^(RowsMut|ColMut)( |:|$)|<rule>"), sel("layout", fn=r"^TooDeeViewMut|<rule>")],
      "Confinement to a mutable view, structural clauses: the view's fields are module-private and RowsMut/ColMut fields crate-private, TooDeeViewMut/RowsMut/ColMut are not Clone (no second writer), the generic algorithm layers (ops/sort/translate/copy) are written against the trait only and use only permutation primitives (R-DUP); the mutable cursors never read a taken slice (R-TAKE). (R-LAYOUT) every writer of module view (index_mut x2, get_unchecked*_mut, col_mut, rows_mut, swap_rows, view_mut, from_toodee, new) matches a confined schema with S = the view's stride: L-POS / L-ROW / L-COLV / L-SWAPROWS / L-WINDOW and the literals RowsMut { cols: C, skip_cols: stride - C }, ColMut { skip: stride - 1 }; (R-CURSOR) RowsMut / ColMut then hand out only [k*(C+K), +C) / single cells.",
      declined=["effect inside the rectangle equals the effect on an owned copy (runtime values)"])
-prop("C05", [sel("conv", fn=r"IntoIterator|From<toodee"), sel("shape", rules=["R-HIDE", "R-LEAK", "R-LEAK-DRAIN", "R-DRAINSTEP"]), sel("dup"), sel("zstptr")],
-     "clauses only: ownership discipline of C05 - (R-HIDE) every bitwise move of elements (ptr::copy/read/write) happens while the Vec length is lowered and every normal path restores it, no restore on an unwind path; (R-DUP) the generic layers only permute; (R-ZSTPTR) progress is never decided by comparing element pointers (zero-sized T); (R-LEAK / R-LEAK-DRAIN) a leaked drain leaves a buffer whose visible part contains no moved-out element; (R-DRAINSTEP) the column drain's iterator methods only single-step the embedded cursor and read out each stepped-over element (a jumping override would forget elements).",
-     declined=["the count: that raw moves copy each element to exactly one live slot (loop invariant over pointer offsets, DESIGN 2.1)"])
-prop("C06", [sel("guard", fn=INSERT), sel("zero", fn=INSERT), sel("shape", fn=INSERT), sel("deleg", fn=r"TooDee::push"), sel("zstptr", fn=INSERT), sel("units", fn=INSERT)],
-     "clauses only: insert_row/insert_col/push_* - (R-GUARD) index <= the dimension of its own unit before anything else; (R-ZERO) the dimension grows only when data was inserted, an empty line into an empty array stays (0,0); (R-UNWIND) any rejected call or panicking iterator leaves a valid (possibly emptied) array; (R-HIDE) raw moves only in the hidden window; (R-DELEG) push_* pass the dimension as index; (R-ZSTPTR) the fill loop counts elements.",
+prop("C05", [sel("rawbounds"), sel("conv", fn=r"IntoIterator|From<toodee"), sel("shape", rules=["R-HIDE", "R-LEAK", "R-LEAK-DRAIN", "R-DRAINSTEP"]), sel("dup"), sel("zstptr")],
+     "clauses only: ownership discipline of C05 - (R-RAWBOUNDS) every ptr::copy / ptr::write / ptr::read / from_raw_parts on the array's buffer in insert_row, insert_col, remove_col and the drain's destructor reads inside the extent that was initialised when the window opened and writes inside the reserved capacity, for every shape and index: offsets are polynomials relative to as_mut_ptr(), counted loops are summarised by induction-variable analysis (checked at the first and last iteration), and each bound is discharged by substituting the path facts (index <= dim, len == rows*cols) and checking coefficient signs; (R-HIDE) every bitwise move of elements (ptr::copy/read/write) happens while the Vec length is lowered and every normal path restores it, no restore on an unwind path; (R-DUP) the generic layers only permute; (R-ZSTPTR) progress is never decided by comparing element pointers (zero-sized T); (R-LEAK / R-LEAK-DRAIN) a leaked drain leaves a buffer whose visible part contains no moved-out element; (R-DRAINSTEP) the column drain's iterator methods only single-step the embedded cursor and read out each stepped-over element (a jumping override would forget elements).",
+     declined=["the count: that raw moves copy each element to exactly one live slot (placement inside the buffer; DESIGN 2.1) - only that they stay inside it"])
+prop("C06", [sel("rawbounds", fn=INSERT + r"|<rule>"), sel("guard", fn=INSERT), sel("zero", fn=INSERT), sel("shape", fn=INSERT), sel("deleg", fn=r"TooDee::push"), sel("zstptr", fn=INSERT), sel("units", fn=INSERT)],
+     "clauses only: insert_row/insert_col/push_* - (R-RAWBOUNDS) the shift / fill pointer arithmetic stays inside the reserved buffer for every (index, rows, cols), including the back-to-front loop of insert_col; (R-GUARD) index <= the dimension of its own unit before anything else; (R-ZERO) the dimension grows only when data was inserted, an empty line into an empty array stays (0,0); (R-UNWIND) any rejected call or panicking iterator leaves a valid (possibly emptied) array; (R-HIDE) raw moves only in the hidden window; (R-DELEG) push_* pass the dimension as index; (R-ZSTPTR) the fill loop counts elements.",
      declined=["placement of the new line and preservation of the other cells (pointer arithmetic of the shift loops, DESIGN 2.1)"])
-prop("C07", [sel("drainlit"), sel("guard", fn=REMOVE), sel("deleg", fn=r"TooDee::pop"), sel("zero", fn=REMOVE), sel("shape", fn=REMOVE), sel("encaps", fn=r"^DrainCol")],
-     "clauses only: remove_row/remove_col/pop_* - (R-GUARD) index < dimension of its unit; (R-DELEG) pop_* are guarded on non-emptiness and pass dim-1; (R-ZERO) removing the last line zeroes both dimensions; (R-LEAK, R-LEAK-DRAIN) the returned drain may be leaked at any stage; (R-UNWIND) the drain's destructor restores a product-form array even when an element's Drop panics; DrainCol implements Iterator + DoubleEndedIterator + ExactSizeIterator; (R-DRAINLIT) its cursor is Col { v: buffer[index .. index + len - num_cols + 1], skip: num_cols - 1 } - exactly the removed column, whose iteration order is C09's; (R-DRAINSTEP) every step reads the element out; (R-RESTORE) the destructor's caller-code points run under a live restorer guard.",
+prop("C07", [sel("rawbounds", fn=REMOVE + r"|<rule>"), sel("drainlit"), sel("guard", fn=REMOVE), sel("deleg", fn=r"TooDee::pop"), sel("zero", fn=REMOVE), sel("shape", fn=REMOVE), sel("encaps", fn=r"^DrainCol")],
+     "clauses only: remove_row/remove_col/pop_* - (R-RAWBOUNDS) the column cursor's region and every block move of the destructor's compaction loop stay inside the original buffer (the last move ends exactly at the original length); (R-GUARD) index < dimension of its unit; (R-DELEG) pop_* are guarded on non-emptiness and pass dim-1; (R-ZERO) removing the last line zeroes both dimensions; (R-LEAK, R-LEAK-DRAIN) the returned drain may be leaked at any stage; (R-UNWIND) the drain's destructor restores a product-form array even when an element's Drop panics; DrainCol implements Iterator + DoubleEndedIterator + ExactSizeIterator; (R-DRAINLIT) its cursor is Col { v: buffer[index .. index + len - num_cols + 1], skip: num_cols - 1 } - exactly the removed column, whose iteration order is C09's; (R-DRAINSTEP) every step reads the element out; (R-RESTORE) the destructor's caller-code points run under a live restorer guard.",
      declined=["the compaction arithmetic of DrainCol's destructor and the order of yielded elements (DESIGN 2.1; the latter follows from C09 for the embedded Col cursor)"])
 prop("C08", [sel("nonzero", fn=r"^(Rows|RowsMut) |<rule>"), sel("take", fn=ROWCUR), sel("ovf", fn=ROWCUR), sel("cursor", fn=r"^(Rows|RowsMut)( |:|$)|<rule>")],
      "Row cursors: (R-CURSOR) for Rows and RowsMut each of next, next_back, nth, nth_back, last, count, size_hint is evaluated path-wise over canonical polynomials and slice intervals and its (result, remaining slice) must equal the ideal strided-cursor update with item width cols and gap skip_cols; because the cursor state is one slice the ideal post-state is unique, so per-function conformance plus the recorded two-line induction covers every interleaving and every n (the overflow flag is a path atom); (R-TAKE) no read of the cursor slice after mem::take; (R-OVF) nth/nth_back multiply n with overflow detection that reaches the emptying branch.",
